@@ -115,6 +115,19 @@ CLAIMED["C05"] = (
     "DESIGN.md section 5 / C05",
 )
 
+CLAIMED["C13"] = (
+    "field-by-field comparison of httpapi.ParseEcho's endpoint list with the route table written by the program synthesiser, in worker processes",
+    "Synthesised route files (all handler forms, path expression forms, contract call subsets/orders, prefix filters) are parsed by the real ParseEcho; count, order, verb, constant-folded URL, handler name, bound input, return type / blob flag, query parameters with types, form values, form file and JSON form field with its resolved type are compared with what the synthesiser wrote. Held on the routes produced.",
+    "Trusted: the synthesiser's route table (built together with the source text); types compared through Type().String().",
+    "DESIGN.md section 5 / C13",
+)
+CLAIMED["C14"] = (
+    "execution monitor under Node 20: the generated client is type-stripped and run against recording stand-ins for axios / FormData / File; recorded requests compared with the endpoint contracts; type positions checked by a TypeScript-subset parser",
+    "For every synthesised route file in the client's domain the real GenerateAxios output is parsed (valid TypeScript, every mentioned type declared once, one method per endpoint), type-stripped, syntax-checked by V8 and executed: every method is called with generated arguments and the recorded verb, URL, body / FormData entries / null, config.params (exactly the declared query parameters, stringified), Authorization header, responseType and returned value are compared with the contract. Held on the calls made; one pinned known finding.",
+    "Trusted: harness/tsmodel for type positions and stripping, V8 for the rest; axios itself is a recording stand-in.",
+    "DESIGN.md section 5 / C14",
+)
+
 NOT_YET = "check not built yet (work in progress, see DESIGN.md section 5 for the planned monitor)"
 NOT_APPLICABLE = {}
 
